@@ -1,6 +1,7 @@
 package rules
 
 import (
+	"go/constant"
 	"go/ast"
 	"strings"
 
@@ -261,6 +262,32 @@ func c08Reader(c *cx) {
 		}
 	}
 	c.r.Floor(id, "whitespace test", nch, 1)
+	// T: what counts as inter-element whitespace is exactly the XML S
+	// production (#x20 #x9 #xD #xA): Unicode spaces are text and end the
+	// session with an error
+	if wf := c.fn(id, "internal/stream", "isWhitespace"); wf != nil {
+		okT := false
+		why := "no Trim-family call with a constant cutset (the whitespace set could not be extracted)"
+		for _, cl := range wf.AllCalls() {
+			cid := wf.CalleeID(cl)
+			if (cid == "bytes.TrimLeft" || cid == "bytes.Trim" || cid == "bytes.TrimRight" || cid == "strings.TrimLeft" || cid == "strings.Trim" || cid == "strings.TrimRight" || cid == "bytes.ContainsAny" || cid == "strings.ContainsAny") && len(cl.Args) == 2 {
+				if cv := wf.ConstVal(cl.Args[1]); cv != nil {
+					set := map[rune]bool{}
+					for _, r := range constant.StringVal(cv) {
+						set[r] = true
+					}
+					okT = len(set) == 4 && set[' '] && set['\t'] && set['\r'] && set['\n']
+					why = "whitespace set is " + cv.ExactString()
+				}
+			}
+			if strings.HasSuffix(cid, ".TrimSpace") || strings.HasPrefix(cid, "unicode.") {
+				okT = false
+				why = cid + " accepts Unicode white space (U+0085, U+00A0, U+2028, U+3000, ...), which is not XML whitespace"
+				break
+			}
+		}
+		c.r.Check(id, wf, "whitespace set", "T: inter-element whitespace is exactly the XML S production {space, tab, CR, LF}", wf.Pos(), okT, why)
+	}
 	// stream error element: decoded and returned as the error
 	nerr := 0
 	for _, ce := range g.EdgesMatching("eq(*.Name.Local,\"error\")") {
